@@ -1,6 +1,6 @@
 #!/usr/bin/env python3
 """Regenerates harness/C05/plan.json (run from anywhere: python3 harness/C05/gen_plan.py).
-The skeleton instances of H-1 are enumerated here; everything else in plan.json is written by hand below."""
+The skeleton instances of H-1 / H-1b are enumerated here; the rest of the plan is written out in main()."""
 import itertools, json, os
 
 HERE = os.path.dirname(os.path.abspath(__file__))
@@ -54,32 +54,97 @@ def inst(w, d, lst, extra=()):
     return {"label": "w%dd%d_%s" % (w, d, code(lst)),
             "defines": ["C05_W=%d" % w, "C05_D=%d" % d, "C05_KIND={%s}" % ",".join(map(str, k)), "C05_NCOMP=%d" % ncomp(lst),
                         "C05_NONLAST=%d" % (1 if nonlast(lst) else 0)] + list(extra),
-            "unwind": (8 if extra else d + 3), "unwindset": ["Rule_verify.0:%d" % (w + 2)]}
+            "unwind": (8 if extra else d + 3), "unwindset": ["Rule_verify.0:%d" % (w + 2), "Rule_verify:%d" % (d + 2)]}
+
+
+W3D2_STRIDE = 5     # thorough: every 5th of the 729 width-3 depth-2 skeletons (ordered by decreasing number of composites)
 
 
 def main():
     fp = "Rule_verify.function_pointer_call.1/" + ",".join("c05_rule_%d" % i for i in range(MAXSLOTS))
     q22 = [inst(2, 2, s) for s in skeletons(2, 2)]
-    # thorough: width 3 depth 2 (729 skeletons; a deterministic subset, see "bound"), depth 3 width 2 with <= 4 composites
+    q31 = [inst(3, 1, s) for s in skeletons(3, 1)]
     s32 = skeletons(3, 2)
     s32.sort(key=lambda s: (-ncomp(s), code(s)))
-    t32 = [inst(3, 2, s) for s in s32]
+    t32 = [inst(3, 2, s) for k, s in enumerate(s32) if k % W3D2_STRIDE == 0]
     s23 = [s for s in skeletons(2, 3) if ncomp(s) <= 4]
     t23 = [inst(2, 3, s) for s in s23]
-    print("w2d2: %d  w3d2: %d  w2d3(<=4 comp): %d of %d" % (len(q22), len(t32), len(t23), len(skeletons(2, 3))))
-    plan = json.load(open(os.path.join(HERE, "plan.in.json")))
-    for h in plan["harnesses"]:
-        if h["name"] == "h1_rule":
-            h["restrict_fp"] = [fp]
-            q31 = [inst(3, 1, s) for s in skeletons(3, 1)]
-            h["instances"] = q22 + q31
-            h["thorough"]["instances"] = q22 + q31 + t32[:int(h["thorough"].pop("_cap_w3d2"))] + t23
-        if h["name"] == "h1b_list":
-            h["restrict_fp"] = [fp]
-            def li(w, s):
-                return inst(w, 1, s, ["C05_WITH_LIST=1", "C05_WARM_LIST=%d" % (0 if ncomp(s) == 0 and w == 2 else 1)])
-            h["instances"] = [li(2, s) for s in skeletons(2, 1)]
-            h["thorough"]["instances"] = h["instances"] + [li(3, s) for s in skeletons(3, 1) if ncomp(s) <= 1]
+    print("H-1 quick: %d w2d2 + %d w3d1;  thorough adds %d of %d w3d2 and %d of %d w2d3 (<= 4 composites)"
+          % (len(q22), len(q31), len(t32), len(s32), len(t23), len(skeletons(2, 3))))
+
+    def li(w, s):
+        return inst(w, 1, s, ["C05_WITH_LIST=1", "C05_WARM_LIST=%d" % (0 if ncomp(s) == 0 and w == 2 else 1)])
+    b_q = [li(2, s) for s in skeletons(2, 1)]
+    b_t = b_q + [li(3, s) for s in skeletons(3, 1) if ncomp(s) <= 1]
+
+    def P(n, s):
+        return {"label": "p%d_%s" % (n, "sig" if s else "nosig"), "defines": ["NPOL=%d" % n, "WITH_SIG=%d" % s]}
+    h2_q = [P(n, s) for n in (1, 2, 3) for s in (0, 1)]
+    h2_t = h2_q + [P(4, 0), P(4, 1)]
+
+    plan = {
+        "property": "C05",
+        "outside": "rule trees wider than 3 or deeper than 3 list levels (quick: width 2 / depth 2 and width 3 / depth 1); fallback chains "
+                   "longer than 3 (quick 2); the predefined policy tables themselves (covered by C01/C02/C04 on the same Rule_verify); rule "
+                   "functions that write result codes outside OK/NA/FAIL; allocation failure inside the bookkeeping (C19)",
+        "assumptions": [
+            "every rule array holds at least one rule before the final empty rule (documented layout of KSI_Rule arrays; an empty array makes "
+            "Rule_verify return its initial KSI_UNKNOWN_ERROR - robustness note, not a violation)",
+            "rule functions always write resultCode (one of OK/NA/FAIL), errorCode and ruleName, as the VERIFICATION_RESULT_* macros of "
+            "verification_rule.c do",
+            "H-2: the destructors of the three temporary objects and KSI_Signature objects are counting stand-ins / a zeroed struct",
+        ],
+        "manifest": {
+            "claimed": True,
+            "level_text": "Bounded model checking (CBMC) of the real Rule_verify and KSI_SignatureVerifier_verify of policy.c against a reference "
+                          "interpreter written from the policy.h text. H-1: for every rule-tree skeleton in the bound (quick: all 25 distinct "
+                          "skeletons of width 2 / depth 2 and all 8 of width 3 / depth 1; thorough adds 146 of the 729 skeletons of width 3 / "
+                          "depth 2 and the 48 skeletons of width 2 / depth 3 with <= 4 composites) and ALL list lengths 1..W, AND/OR labels, and "
+                          "rule outcomes (any int status, OK/NA/FAIL, any int error code - a superset of the five outcome classes), the SAT "
+                          "solver shows that the return code, the final result/error code and the invocation sequence number of EVERY rule slot "
+                          "(0 = never invoked) equal the reference - i.e. rules run strictly in order, nothing runs after the stopping point, a "
+                          "FAIL or an internal error is never masked, the verdict is that of the last rule evaluated. H-1b: the real ruleResults "
+                          "list holds the evaluated rules' results in order, without the (KSI_OK, NA, KSI_VER_ERR_NONE) answers and without a "
+                          "second entry per rule-name pointer. H-2: fallback chains of 0..2 (thorough 3) fallbacks built with "
+                          "KSI_Policy_create/setFallback/clone: the next policy is evaluated iff the previous verdict is FAIL or NA, never after OK "
+                          "or an internal error (returned without result object); one policyResults entry per evaluated policy; tempData empty at "
+                          "each policy start, released exactly once, NULL on return; last-failed-signature bookkeeping.",
+            "level_note": "Bounded: trees beyond the enumerated skeletons and chains beyond 3 fallbacks are outside; in thorough only every 5th "
+                          "width-3/depth-2 skeleton is run (time cap) - the number discharged is the number of ok instances in the evidence. "
+                          "Trusted base: CBMC 6.11 C semantics; logging stubbed; typed-list devirtualisation (proof obligation per call site); the "
+                          "indirect rule call in Rule_verify is restricted to the 40 instrumented slot functions with goto-instrument's "
+                          "membership assertion; H-1b gives the result list its capacity up front (append+remove) except in one instance that "
+                          "runs on the fresh list. An empty rule array (no rule before the terminator) makes Rule_verify return "
+                          "KSI_UNKNOWN_ERROR: treated as a violated precondition, reported as a robustness note only. Duplicate suppression in "
+                          "ruleResults is by rule-NAME POINTER and keeps the FIRST result of a name (a later FAIL of the same rule function is "
+                          "not listed although it is the verdict) - this is the implemented and asserted behaviour, not a documented contract."
+        },
+        "harnesses": [
+            {"name": "h1_rule", "src": "h1_rule.c", "env": ["ctx", "list_wrap"], "tus": [],
+             "unwind": 5, "timeout": 300, "mem_gb": 8, "object_bits": 12, "restrict_fp": [fp],
+             "functions": ["Rule_verify"],
+             "bound": "rule trees given by skeleton instances wWdD_<code> (code: b = basic slot, c<children> = composite slot with its child "
+                      "list); per instance symbolic: every list length 1..W (trailing basic slots cut off), AND/OR label of every composite, "
+                      "type of every terminator, outcome of every basic rule (int status, OK/NA/FAIL, int error code)",
+             "instances": q22 + q31,
+             "thorough": {"instances": q22 + q31 + t32 + t23, "timeout": 900}},
+            {"name": "h1b_list", "src": "h1_rule.c", "env": ["ctx", "list_wrap"], "tus": [],
+             "unwind": 8, "timeout": 400, "mem_gb": 8, "object_bits": 12, "restrict_fp": [fp],
+             "functions": ["Rule_verify", "PolicyVerificationResult_addLatestRuleResult", "isDuplicateRuleResult", "KSI_RuleVerificationResult_dup",
+                           "PolicyVerificationResult_create"],
+             "bound": "width 2 / depth 1 trees (all 4 skeletons; thorough also the 4 width-3 skeletons with <= 1 composite), rule-name pointer of "
+                      "every basic rule symbolic among 3 shared names, all outcomes / labels / lengths symbolic, real result list",
+             "instances": b_q, "thorough": {"instances": b_t, "timeout": 1200}},
+            {"name": "h2_fallback", "src": "h2_fallback.c", "env": ["ctx", "list_wrap", "fmt_stub"], "tus": ["signature"],
+             "unwind": 7, "unwindset": ["Rule_verify.0:3", "Rule_verify:3"], "timeout": 300, "mem_gb": 8, "object_bits": 12,
+             "functions": ["KSI_SignatureVerifier_verify", "Policy_verifySignature", "Rule_verify", "KSI_Policy_create", "KSI_Policy_clone",
+                           "KSI_Policy_setFallback", "PolicyVerificationResult_create", "PolicyVerificationResult_addLatestPolicyResult",
+                           "VerificationTempData_clear", "KSI_Signature_free", "KSI_Signature_ref"],
+             "bound": "chains of 1..3 policies (thorough 4) with one instrumented rule each, with and without a signature object in the context; "
+                      "per policy symbolic: status, OK/NA/FAIL, error code, which of the three temporary objects the rule leaves behind; entry "
+                      "through the first policy or its clone",
+             "instances": h2_q, "thorough": {"instances": h2_t, "timeout": 900}},
+        ]}
     json.dump(plan, open(os.path.join(HERE, "plan.json"), "w"), indent=1)
 
 
